@@ -449,6 +449,7 @@ Proof.
   - apply Inv_iter; auto.
   - apply Inv_iter; auto.
   - apply Inv_io_done; auto.
+  - simpl; auto.
 Qed.
 
 Lemma Qok_step_core o s : core_op o -> Inv s -> Qok s -> Qok (fst (step o s)).
@@ -473,6 +474,7 @@ Proof.
   - unfold io_done. destruct (s_io s); auto. apply Qok_enq.
     intros i Hq. simpl in Hq; intuition discriminate.
     eapply Qok_grow; [| | |exact K]; auto.
+  - simpl; auto.
 Qed.
 
 (* ------------------------------------------------------------------------------------------ *)
@@ -517,6 +519,7 @@ Proof.
   - unfold io_done. destruct (s_io s); auto.
   - unfold read_blob. destruct (s_verified s); auto. destruct (s_store s); auto. destruct kd; auto.
   - contradiction.
+  - simpl; auto.
 Qed.
 
 (* an accepted length changes by nothing but delete() *)
@@ -933,6 +936,7 @@ Proof.
   - apply Inv2_io_done; auto.
   - apply Inv2_read; auto.
   - apply Inv2_delete; auto.
+  - simpl; auto.
 Qed.
 
 Lemma Inv2_run ops s : Inv2 s -> Inv2 (run ops s).
@@ -1048,6 +1052,7 @@ Proof.
   - apply wmono_ws. apply read_frame.
   - unfold delete_blob. destruct (settled s); simpl; [|apply wmono_refl].
     eapply wmono_trans; [apply wmono_close_blob|apply wmono_ws; reflexivity].
+  - apply wmono_refl.
 Qed.
 
 Lemma wmono_run ops s : wmono s (run ops s).
@@ -1286,6 +1291,7 @@ Proof.
   - apply Live_iter; auto.
   - apply Live_iter; auto.
   - apply Live_io_done; auto.
+  - simpl; auto.
 Qed.
 
 Lemma Live_run ops s : core_ops ops -> Inv2 s -> Live s -> Live (run ops s).
@@ -1453,6 +1459,7 @@ Proof.
   - eapply Cl_grow; [| |exact C]; unfold io_done; destruct (s_io s); auto. intros it Hin. simpl. apply in_or_app; auto.  - destruct (read_frame s) as (E1 & E2 & _). eapply Cl_grow; [exact E1| |exact C]. intros it Hin. rewrite E2; auto.
   - unfold delete_blob. destruct (settled s); simpl; auto.
     apply Cl_grow with (s := close_blob s); auto. apply Cl_close_blob; auto.
+  - simpl; auto.
 Qed.
 
 Lemma Cl_run ops s : Cl s -> Cl (run ops s).
@@ -1785,6 +1792,7 @@ Proof.
     intros k j Hq. rewrite E2 in Hq; auto.
   - unfold delete_blob. destruct (settled s); simpl; auto.
     apply Reg_grow_q with (s := close_blob s); auto. apply Reg_close_blob; auto.
+  - simpl; auto.
 Qed.
 
 (* ------------------------------------------------------------------------------------------ *)
@@ -2010,6 +2018,7 @@ Proof.
   - apply Psi_iter; auto.
   - apply Psi_iter; auto.
   - apply Psi_io_done.
+  - simpl; auto.
 Qed.
 
 Lemma Psi_run ops : forall s, core_ops ops -> Inv2 s -> Psi (run ops s) = Psi s.
@@ -2304,6 +2313,7 @@ Proof.
   - apply seen0_ws. apply read_frame.
   - unfold delete_blob. destruct (settled s); simpl; auto.
     rewrite (seen0_ws (close_blob s)) by reflexivity. apply seen0_close_blob.
+  - simpl; auto.
 Qed.
 
 Fixpoint written (i : nat) (ops : list op) (rs : list res) : bytes :=
@@ -2412,6 +2422,7 @@ Proof.
   - unfold io_done. destruct (s_io s); auto.
   - destruct (read_frame s) as (E1 & _). rewrite E1. auto.
   - unfold delete_blob. destruct (settled s); simpl; auto. apply gen_close_blob; auto. apply w_hist_cancel.
+  - simpl; auto.
 Qed.
 
 Lemma Hist_run ops : forall s, All s -> Hist s -> Hist (run ops s).
@@ -2646,6 +2657,7 @@ Proof.
     + intros x Hin. apply in_app_or in Hin. destruct Hin as [Hin|Hin]; auto. simpl in Hin; intuition discriminate.
     + intros x Ex0. inversion Ex0; subst. auto.
     + intros V W. exfalso. destruct I2 as (I1 & _). unfold io01 in I1. rewrite Ei, W in I1. simpl in I1. lia.
+  - simpl; auto.
 Qed.
 
 Lemma Ex_run ops s : core_ops ops -> Inv2 s -> Ex s -> Ex (run ops s).
